@@ -304,10 +304,16 @@ func concatStr(x, y value) value {
 	if ys, ok := y.(string); ok && ys == "" {
 		return x
 	}
+	if d, ok := x.(decstr); ok {
+		x = symstr{expandDec(d.x)}
+	}
+	if d, ok := y.(decstr); ok {
+		y = symstr{expandDec(d.x)}
+	}
 	xc, ok1 := strCells(x)
 	yc, ok2 := strCells(y)
 	if !ok1 || !ok2 {
-		theEx.unsupported("concatenation with opaque decimal string")
+		theEx.unsupported("concatenation with opaque text")
 	}
 	out := make([]value, 0, len(xc)+len(yc))
 	out = append(out, xc...)
@@ -1024,4 +1030,29 @@ func appendCells(s []value, add []value, tElt types.Type) []value {
 		r[i] = zero(tElt)
 	}
 	return r[:n+len(add)]
+}
+
+// expandDec materialises the decimal text of x as byte cells: the length
+// is forked on (1..18 characters), the digits are fresh symbolic bytes
+// constrained to spell x.
+func expandDec(x *Term) []value {
+	if x.op == OpConst {
+		s := fmt.Sprint(int64(x.val))
+		cells, _ := strCells(s)
+		return cells
+	}
+	ex := theEx
+	n := int(ex.concretize(decLen(x), 1, 20, "declen"))
+	if n > 18 {
+		ex.unsupported("decimal text longer than 18 characters used as bytes")
+	}
+	base := ex.freshName("$dec")
+	cells := make([]value, n)
+	for i := range cells {
+		cv := mkVar(fmt.Sprintf("%s[%d]", base, i), 8)
+		cells[i] = &Sym{cv}
+	}
+	ex.assume(decEqCells(x, cells))
+	usedIntrinsics["decimal text expanded to digit bytes"]++
+	return cells
 }
